@@ -7,4 +7,5 @@ CONSTANTS
   PoolSize = 2
   Variants = {0, 2, 4}
 INVARIANT InvUpdateTouchesOnlyProps
+INVARIANT InvModelAdmitted
 CHECK_DEADLOCK FALSE
